@@ -74,6 +74,11 @@ def run(ch, build):
             steps.append({"op": "cmd", "conn": "session", "cmd": ch.rng.choice(pool), "script": ch.rng.choice([["busy"] * 6, ["garbage"] * 6, ["badsig", "busy", "c3", "busy", "c3"]]),
                           **ch.rng.choice([{"cancel_ms": 25}, {"cancel_ms": 75}, {"cancel_ms": 125}, {"ctx_ms": 75}, {"ctx_ms": 130}])})
             steps.append({"op": "cmd", "conn": "session", "cmd": ch.rng.choice(pool), "script": ch.rng.choice([["ok"], ["busy", "ok"]])})
+        for j in range(3):
+            # the context ends WHILE an attempt waits for its reply (deadline or cancellation before the per-attempt timeout)
+            steps.append({"op": "cmd", "conn": "session", "cmd": ch.rng.choice(pool), "script": ch.rng.choice([["silence"], ["busy", "silence"]]),
+                          **ch.rng.choice([{"ctx_ms": 15}, {"cancel_ms": 15}, {"ctx_ms": 70}])})
+            steps.append({"op": "cmd", "conn": "session", "cmd": ch.rng.choice(pool), "script": ["ok"]})
         scns.append({"bmc": conn.default_bmc(seed=300 + k, suites=[[100, su[0], su[1], su[2]]]), "timeout_ms": 40, "backoff_ms": 50, "steps": steps})
     outs = conn.run_scenarios(scns)
     hist.replay(ch, scns, outs, (Hook(),), "c09")
